@@ -11,7 +11,7 @@ PROPERTY = "C07"
 MODULES = ["Assignment", "MC_Assignment", "Trace_Assignment"]
 TRACE = ("Trace_Assignment", "Trace_Assignment.cfg")
 EXHAUSTIVE = True
-RULE = ("TLC explores all histories (<= 6 steps) of add / assign / remove over a lattice world of 3 lanelets and 4 "
+RULE = ("TLC explores all histories (<= 6 steps) of add / assign / remove / obstacle motion / lanelet removal over a lattice world of 3 lanelets and 5 "
         "obstacles (static rectangle whose shape but not centre reaches a second lanelet, static disc touching two "
         "lanelets, dynamic rectangle crossing a shared edge, prediction-less dynamic polygon on an edge) on the "
         "implementation-shaped model; a transition cover of the dumped graph, both file readers with lanelet "
@@ -32,8 +32,10 @@ WORLD0 = {"lan": [[1, 0, 0, 2, 2], [2, 2, 0, 4, 2], [3, 0, 2, 2, 4]],
 
 
 def model_check(ctx):
-    ctx.mc("MC_Assignment", "MC_Assignment.cfg")
+    ctx.mc("MC_Assignment", "MC_Assignment_t.cfg" if ctx.thorough else "MC_Assignment.cfg")
     ctx.mc_expect("MC_Assignment", "DEV_Assignment_1.cfg", "InvInverseStatic")
+    ctx.mc_expect("MC_Assignment", "DEV_Assignment_2.cfg", ("InvInverseStatic", "InvInverseDynamic"))
+    ctx.mc_expect("MC_Assignment", "DEV_Assignment_3.cfg", "InvRemoveTotal")
 
 
 def cases(ctx):
@@ -49,15 +51,15 @@ def cases(ctx):
                         "verdict": "dumped %d labelled edges -> %d covering walks" % (ne, len(walks))})
     cs = []
     for i, w in enumerate(walks):
-        cs.append({"src": "tlc", "world": WORLD0, "ops": [[a[0], a[1]] for a in w], "reuse": i % 2})
+        cs.append({"src": "tlc", "world": WORLD0, "ops": [[a[0], a[1]] for a in w], "reuse": 1 if i % 3 else 0})
     # reader routes on every subset of the model world's obstacles
     for mask in range(1, 32):
         ids = [o["id"] for k, o in enumerate(WORLD0["obs"]) if mask >> k & 1]
         for fmt in ("open_xml", "open_pb"):
             cs.append({"src": "reader", "world": WORLD0, "ops": [["add", i] for i in ids] + [[fmt, 0]], "reuse": 0})
     rng = ctx.rng
-    for _ in range(3000 if ctx.thorough else 500):
-        cs.append({"src": "random", "seed": rng.randrange(1 << 30)})
+    for _ in range(20000 if ctx.thorough else 500):
+        cs.append({"src": "random", "seed": rng.randrange(1 << 30), "big": 1 if ctx.thorough else 0})
     return cs
 
 
@@ -65,15 +67,15 @@ def nontrivial(case):
     return json.dumps(case.get("ops") or case.get("seed"))
 
 
-def _random_case(seed):
+def _random_case(seed, big=0):
     import random
     r = random.Random(seed)
     lan = []
-    for i in range(1, r.randint(2, 5) + 1):
+    for i in range(1, r.randint(2, 7 if big else 5) + 1):
         x0, y0 = r.randint(0, 4), r.randint(0, 3)
         lan.append([i, x0, y0, x0 + r.choice([1, 2, 3]), y0 + r.choice([1, 2])])
     obs = []
-    for k in range(r.randint(1, 4)):
+    for k in range(r.randint(1, 6 if big else 4)):
         kind = r.choice(["static", "dynamic", "dynamic"])
         shape = r.choice([["rect", 2, 1], ["rect", 1, 1], ["rect", 3, 1], ["poly", 2, 2], ["poly", 1, 3], ["disc", 1, 0],
                           ["disc", 2, 0]])
@@ -86,7 +88,7 @@ def _random_case(seed):
                     "poses": poses})
     world = {"lan": lan, "obs": obs}
     ops, present = [], set()
-    for _ in range(10):
+    for _ in range(18 if big else 10):
         k = r.random()
         if k < 0.35 and len(present) < len(obs):
             o = r.choice([o["id"] for o in obs if o["id"] not in present])
@@ -94,10 +96,14 @@ def _random_case(seed):
             present.add(o)
         elif k < 0.65:
             ops.append(["assign", 0])
-        elif k < 0.85 and present:
+        elif k < 0.80 and present:
             o = r.choice(sorted(present))
             ops.append(["remove", o])
             present.discard(o)
+        elif k < 0.88 and present:
+            ops.append(["move", r.choice(sorted(present)), [2 * r.randint(-2, 2), 2 * r.randint(-2, 2)]])
+        elif k < 0.93:
+            ops.append([r.choice(["remove_lanelet", "remove_lanelet", "replace_network"]), r.choice(lan)[0]])
         elif present:
             ops.append([r.choice(["open_xml", "open_pb"]), 0])
     return world, ops, r.randint(0, 1)
@@ -147,6 +153,18 @@ def build_scenario(world):
 
 # ---- alpha ---------------------------------------------------------------------------------------------
 
+def _poses_of(o):
+    """Current poses of a real obstacle as <<cx2, cy2, q>> (doubled centre, quarter turns)."""
+    sts = [o.initial_state] + (list(o.prediction.trajectory.state_list) if getattr(o, "prediction", None) is not None else [])
+    out = []
+    for st in sts:
+        x2, y2, q = 2.0 * float(st.position[0]), 2.0 * float(st.position[1]), float(st.orientation) / (math.pi / 2)
+        if max(abs(x2 - round(x2)), abs(y2 - round(y2)), abs(q - round(q))) > 1e-6:
+            raise tlc.MachineryError("off-lattice pose %r" % ((x2, y2, q),))
+        out.append([int(round(x2)), int(round(y2)), int(round(q)) % 4])
+    return out
+
+
 def _ids(s):
     return sorted(int(x) for x in s)
 
@@ -179,14 +197,15 @@ def execute(case):
     from commonroad.common.util import FileFormat
     from commonroad.planning.planning_problem import PlanningProblemSet
     if case.get("src") == "random":
-        world, ops, reuse = _random_case(case["seed"])
+        world, ops, reuse = _random_case(case["seed"], case.get("big", 0))
     else:
         world, ops, reuse = case["world"], case["ops"], case.get("reuse", 0)
     by_id = {o["id"]: o for o in world["obs"]}
     sc = build_scenario(world)
     objs, ev = {}, []
-    for op, arg in ops:
-        exc, sig = "None", op
+    for step in ops:
+        op, arg = step[0], step[1]
+        exc, sig, fresh_flag, d = "None", op, 0, [0, 0]
         try:
             if op == "add":
                 if sc.obstacle_by_id(arg) is not None:
@@ -194,9 +213,28 @@ def execute(case):
                 if not (reuse and arg in objs):
                     objs[arg] = build_obstacle(by_id[arg])
                     sig = "add/fresh/" + by_id[arg]["kind"]
+                    fresh_flag = 1
                 else:
                     sig = "add/again/" + by_id[arg]["kind"]
                 sc.add_objects(objs[arg])
+            elif op == "move":                                     # obstacle-level rigid motion by a lattice vector
+                import numpy as np
+                o = sc.obstacle_by_id(arg)
+                if o is None:
+                    continue
+                d = list(step[2]) if len(step) > 2 else [4, 0]       # doubled coordinates
+                sig = "move/%s/%s" % (by_id[arg]["kind"], "assigned" if o.initial_shape_lanelet_ids is not None else "unassigned")
+                o.translate_rotate(np.array([d[0] / 2.0, d[1] / 2.0]), 0.0)
+            elif op == "remove_lanelet":
+                la = sc.lanelet_network.find_lanelet_by_id(arg)
+                if la is None:
+                    continue
+                sc.remove_lanelet(la)
+            elif op == "replace_network":
+                from commonroad.scenario.lanelet import LaneletNetwork
+                from crv import gamma as G
+                sc.replace_lanelet_network(LaneletNetwork.create_from_lanelet_list(
+                    [G.lanelet(i, float(x0), float(y0), float(x1 - x0), float(y1 - y0)) for (i, x0, y0, x1, y1) in world["lan"]]))
             elif op == "assign":
                 sc.assign_obstacles_to_lanelets()
             elif op == "remove":
@@ -209,10 +247,11 @@ def execute(case):
                 d = os.path.join(tlc.OUT, "c07_tmp")
                 os.makedirs(d, exist_ok=True)
                 path = os.path.join(d, "p%d.%s" % (os.getpid(), "xml" if op == "open_xml" else "pb"))
-                # write a scenario that carries no assignment yet, read it back with lanelet assignment enabled
-                fresh = build_scenario(world)
+                # write a scenario that carries no assignment yet (the CURRENT lattice world, projected from the real
+                # objects: remaining lanelets, obstacles at their current poses), read it back with lanelet assignment
+                fresh = build_scenario({"lan": [r for r in world["lan"] if sc.lanelet_network.find_lanelet_by_id(r[0])]})
                 for o in sc.obstacles:
-                    fresh.add_objects(build_obstacle(by_id[o.obstacle_id]))
+                    fresh.add_objects(build_obstacle(dict(by_id[o.obstacle_id], poses=_poses_of(o))))
                 CommonRoadFileWriter(fresh, PlanningProblemSet(), decimal_precision=6,
                                      file_format=FileFormat.XML if op == "open_xml" else FileFormat.PROTOBUF) \
                     .write_to_file(path, OverwriteExistingFile.ALWAYS)
@@ -225,7 +264,7 @@ def execute(case):
             raise
         except Exception as ex:
             exc = "exc:" + type(ex).__name__
-        ev.append(dict(project(sc), op=op, arg=arg, exc=exc, sig=sig))
+        ev.append(dict(project(sc), op=op, arg=arg, exc=exc, sig=sig, fresh=fresh_flag, d=d))
     return {"ev": ev, "world": world}
 
 
